@@ -146,7 +146,8 @@ def obs_of(x, sns=False):
             cn = "StateNextStateTable"
         return ["table", cn, [pv_of(n) for n in a[1]], [[pv_of(e) for e in d] for d in a[2]],
                 list(a[3]), [obs_of(p, sns) for p in a[4]],
-                [{"DKDom": "domaintuple", "DKTuple": "tuple", "DKList": "list"}[ctor(k)[0]] for k in a[5]]]
+                [{"DKDom": "domaintuple", "DKTuple": "tuple", "DKList": "list"}[ctor(k)[0]] for k in a[5]],
+                [pv_of(k) for k in a[6]], a[7]]
     raise vlib.CoqError("unknown obs %r" % (x,))
 
 
@@ -220,6 +221,34 @@ def gen_row(rng, L, kind):
         f = rng.choice([1 + 1e-6, 1 - 1e-7, 1 + 1e-4, 1 - 1e-9])
         row = [x * f for x in row]
     return row
+
+
+def gen_objs(rng, size):
+    """cells of an object-dtype table (tagged values, one per cell id, pairwise distinct): mostly containers - a cell that is
+    itself a tuple / list / frozenset must come back as that very object, not be taken for an array"""
+    out, once = [], {"none": False, "empty_t": False, "empty_l": False}
+    for k in range(size):
+        r = rng.random()
+        if r < .3:
+            v = ["t", [["i", k], ["i", 0]]]
+        elif r < .45:
+            v = ["l", [["i", k]]]
+        elif r < .55:
+            v = ["t", [["t", [["i", k]]], ["s", "a"]]]
+        elif r < .65:
+            v = ["fs", [["i", k]]]
+        elif r < .7 and not once["none"]:
+            v, once["none"] = ["n"], True
+        elif r < .75 and not once["empty_t"]:
+            v, once["empty_t"] = ["t", []], True
+        elif r < .8 and not once["empty_l"]:
+            v, once["empty_l"] = ["l", []], True
+        elif r < .9:
+            v = ["s", "c%d" % k]
+        else:
+            v = ["l", [["i", k], ["t", [["i", 1], ["i", 0]]]]]
+        out.append(v)
+    return out
 
 
 def gen_vals(rng, cls, doms, data, dtype):
@@ -325,7 +354,11 @@ def gen_table(rng, outer_size=None):
             "rep": rep, "data": data}
     if rep["ctor"] == "fields":
         case["kinds"] = [rng.choice(["dt", "t", "t", "l", "l"]) for _ in doms]
-    if rng.random() < (.65 if cls in PROB_CLS else .3):
+    rep["table_obs"] = rng.choice(["before", "after"])     # parent's keys/len/items taken before or after the selections
+    if rep["ctor"] in ("default", "fields") and rng.random() < .25:
+        rep["dtype"] = "object"                             # cells are Python objects (tuples, lists, frozensets, None, str)
+        case["vals"] = gen_objs(rng, size)
+    elif rng.random() < (.65 if cls in PROB_CLS else .3):
         # cells are real numbers (probability rows / large values), compared bit-exactly
         rep["dtype"] = "prob64" if (rep["ctor"] == "from_dict" and n == 2) else rng.choice(["prob64", "prob64", "prob64", "prob32", "prob32", "probint"])
         case["vals"] = gen_vals(rng, cls, doms, data, rep["dtype"])
@@ -565,6 +598,28 @@ def dist_clause(got):
     return None
 
 
+def subtable_clause(got):
+    """a RETURNED table is a table: its keys / len / items run over its own outermost domain, items pairing the j-th key
+    with the j-th slice of its own data (judged on what the returned table itself reports; independent of the model)"""
+    if got[0] != "table":
+        return None
+    cls, names, doms, data, meta = got[1], got[2], got[3], got[4], got[7]
+    if meta.get("keys") != doms[0] or meta.get("len") != len(doms[0]):
+        return "keys/len of a returned sub-table are not its outermost domain"
+    n0 = len(doms[0])
+    stride = len(data) // n0 if n0 else 0
+    exp = []
+    for j in range(n0):
+        if len(doms) == 1:
+            exp.append([doms[0][j], ["scalar", data[j]]])
+        else:
+            c = "TableDistribution" if (cls in PROB_CLS and len(doms) == 2) else cls
+            exp.append([doms[0][j], ["table", c, names[1:], doms[1:], data[j * stride:(j + 1) * stride]]])
+    if meta.get("items") != exp:
+        return "items of a returned sub-table do not pair its outer keys with its rows"
+    return None
+
+
 def oracle_chain(case, names, fam, chain, out):
     """-> None (clause holds / family has no clause) or the text of the violated clause"""
     doms = [[dec(e) for e in d] for d in case["doms"]]
@@ -670,6 +725,8 @@ def valmap(case):
     if "vals" not in case:
         return None
     dt = case["rep"]["dtype"]
+    if dt == "object":
+        return lambda k: ["o", case["vals"][k]]
 
     def vm(k):
         if k >= len(case["vals"]):
@@ -746,7 +803,12 @@ def feats(case, orig, res, F):
             inc("fields_ctor_domain_held_in=" + {"dt": "domaintuple", "t": "plain tuple", "l": "plain list"}[k])
         if any(k != "dt" for k in case.get("kinds", [])):
             inc("tables_with_plain_sequence_domains")
-    if "vals" in case:
+    inc("parent_keys_len_items_taken_%s_the_selections" % rep.get("table_obs", "before"))
+    if rep.get("dtype") == "object":
+        inc("object_dtype_tables")
+        for x in case["data"]:
+            inc("object_cells_of_type_" + {"t": "tuple", "l": "list", "fs": "frozenset", "n": "None", "s": "str"}.get(x[1][0], x[1][0]))
+    elif "vals" in case:
         vs = [Fraction(*x) for x in case["data"]]
         isprob = case["cls"] in PROB_CLS
         L = sizes[-1]
@@ -770,7 +832,7 @@ def feats(case, orig, res, F):
 def strip(o):
     """an implementation observation in the shape of a model observation: class, names, domains, data, row
     probabilities, and the Python container type of every domain"""
-    return o[:6] + [o[7]["dom_types"]] if o and o[0] == "table" else o
+    return o[:6] + [o[7]["dom_types"], o[7]["keys"], o[7]["len"]] if o and o[0] == "table" else o
 
 
 def run(ctx):
@@ -875,6 +937,10 @@ def run(ctx):
                     if meta["data_shape"] != [len(d) for d in o[3]]:
                         ctx_violation("C12:returned-table-shape-disagrees-with-its-index", {"case": sub(j), "impl": out}, found=True)
             why = oracle_chain(case, names, fam, ch, out)
+            for o in out["steps"]:
+                why = why or subtable_clause(o)
+                if o[0] == "table":
+                    F["returned_tables_keys_len_items_checked"] = F.get("returned_tables_keys_len_items_checked", 0) + 1
             if fam != "ext":
                 stats["oracle_checked"] += 1
                 if fam == "full" and dec(ch[0]) in [dec(e) for e in case["doms"][0]]:
@@ -885,7 +951,7 @@ def run(ctx):
                     ("action_dist" not in out or strip(out["action_dist"]) == msteps[0]) and
                     strip(out["repeat"]) == msteps[0] and                           # second call on the same object
                     out.get("stale_ok", True) and           # first results re-queried after a different table was used
-                    out["get_none"] == ("err" if mget[0] == "err" else mget == ["default"]))   # get(key) without a default
+                    out["get_none"] == ("err" if mget[0] == "err" else (mget == ["default"] or mget == ["scalar", ["o", ["n"]]])))   # get(key) without a default (a cell may be None)
             if why:
                 ctx_violation("C12:" + why, {"case": sub(j), "family": fam, "impl": out, "model": [msteps, mget]}, found=True)
             elif not same:
